@@ -237,7 +237,17 @@ def run_unit(unit, rng, ctx):
         cell = rng.integers(0, np.array(sc), size=(T, N, 3))
         near = np.mod(s0[None, None, :] + (gen.random_unit_vectors(rng, T * N).reshape(T, N, 3) * rng.uniform(0, 1.2 * radius, size=(T, N, 1))) @ inv, 1)
         tp = np.where(rng.uniform(size=(T, N, 1)) < 0.5, (near + cell) / np.array(sc), tp)
-        traj = gen.make_trajectory(np.array(sc)[:, None] * m, gen.species_objects(['Li'] * N), tp)
+        # the simulation cell of the trajectory is the supercell of the analyzer's cell - exactly, thermally expanded
+        # / compressed by about 1 %, or oriented differently in space (positions are fractional: what is collected
+        # is defined by the analyzer's own lattice)
+        traj_cell = np.array(sc)[:, None] * m
+        cell_kind = int(rng.integers(4))
+        if cell_kind == 1:
+            traj_cell = traj_cell * float(rng.choice([1.01, 0.985]))
+        elif cell_kind == 2:
+            traj_cell = traj_cell @ geom.random_rotation(rng).T
+        ctx.count(f'trajectory_cell:{["exact supercell", "expanded / compressed", "reoriented", "exact supercell"][cell_kind]}')
+        traj = gen.make_trajectory(traj_cell, gen.species_objects(['Li'] * N), tp)
         sc_arg = None if sc == (1, 1, 1) and rng.integers(2) else sc
         traj_before = snap.traj_content(traj)
         hist_t = int(rng.integers(3))
@@ -248,7 +258,7 @@ def run_unit(unit, rng, ctx):
         elif hist_t == 2 and T >= 2:
             # handed over as displacements + base positions from the start
             dd = np.diff(tp, axis=0, prepend=tp[:1])
-            traj = gen.make_trajectory(np.array(sc)[:, None] * m, gen.species_objects(['Li'] * N), dd - np.round(dd), coords_are_displacement=True, base_positions=tp[0].copy())
+            traj = gen.make_trajectory(traj_cell, gen.species_objects(['Li'] * N), dd - np.round(dd), coords_are_displacement=True, base_positions=tp[0].copy())
             traj_before = snap.traj_content(traj)
             ctx.count('trajectory_in_displacement_representation', bool(traj.coords_are_displacement))
         if unit['r'] % 2 == 0 and rng.integers(2):
